@@ -71,6 +71,10 @@ enum Kind {
     Sync { rows: usize },
     RoomEdit,
     Recompute,
+    /// several single-row requests pipelined on the mutation stream (which asks for recomputation when it ends)
+    Stream { rows: usize },
+    /// a write and a recomputation request placed, in this order, in one transaction (the writer is kept busy meanwhile)
+    WriteThenRecompute,
 }
 impl Kind {
     fn name(&self) -> &'static str {
@@ -81,6 +85,8 @@ impl Kind {
             Kind::Sync { .. } => "synchronised-batch",
             Kind::RoomEdit => "room-mutation",
             Kind::Recompute => "recomputation",
+            Kind::Stream { .. } => "pipelined-stream",
+            Kind::WriteThenRecompute => "write-then-recomputation-in-one-transaction",
         }
     }
 }
@@ -130,9 +136,18 @@ fn gen_groups(seed: u64) -> Vec<Vec<OpSpec>> {
             g.push(OpSpec { i, kind });
             i += 1;
         }
+        // a recomputation request queued right behind writes ends up in their transaction
+        if !g.is_empty() && rng.gen_bool(0.4) {
+            g.push(OpSpec { i, kind: Kind::Recompute });
+            i += 1;
+        }
         free_targets.extend(created_here);
         groups.push(g);
     }
+    // the last writes of the history touch an entity nothing else marks afterwards
+    groups.push(vec![OpSpec { i, kind: Kind::Stream { rows: rng.gen_range(2..=4) } }]);
+    i += 1;
+    groups.push(vec![OpSpec { i, kind: Kind::WriteThenRecompute }]);
     groups
 }
 
@@ -176,7 +191,7 @@ async fn child(seed: u64, dir: std::path::PathBuf, fp: String, k: u64, action: F
     let log = Arc::new(std::sync::Mutex::new(AckLog { f }));
     let peer = Arc::new(Peer::start("p", seed, 0, MODEL, &dir.join("db"), small_config()).await.unwrap());
     let member = Arc::new(Identity::new(seed, 3));
-    let spec = open_room_spec(&[peer.id.vkey.clone(), member.vkey.clone()], &["Person", "Pet"], true);
+    let spec = open_room_spec(&[peer.id.vkey.clone(), member.vkey.clone()], &["Person", "Pet", "ns.Thing"], true);
     let room = peer.create_room(&spec).await.unwrap();
     let room_id = room.id;
     log.lock().unwrap().line(&format!("READY {}", json!({"room": b64(&room.id)})));
@@ -318,6 +333,49 @@ async fn perform(
             peer.db.compute_daily_log().await;
             Ok(json!({}))
         }
+        Kind::WriteThenRecompute => {
+            let writer = peer.db.db.writer.clone();
+            let busy = tokio::spawn(async move {
+                let _ = writer.write(Box::new(crate::peer::Busy(60))).await;
+            });
+            tokio::time::sleep(Duration::from_millis(10)).await;
+            let mut p = Parameters::new();
+            p.add("r", b64(&room)).unwrap();
+            let text = format!("mutate {{ ns.Thing{{ room_id:$r label:\"op{}-0\" }} }}", i);
+            let fut = peer.mutate(&text, Some(p));
+            tokio::pin!(fut);
+            // let the request reach the writer's buffer, then queue the recomputation behind it
+            let early = tokio::time::timeout(Duration::from_millis(25), &mut fut).await;
+            peer.db.compute_daily_log().await;
+            let r = match early {
+                Ok(r) => r,
+                Err(_) => fut.await,
+            };
+            let _ = busy.await;
+            r.map(|_| json!({}))
+        }
+        Kind::Stream { rows } => {
+            let (tx, mut rx) = peer.db.mutation_stream();
+            for j in 0..*rows {
+                let mut p = Parameters::new();
+                p.add("r", b64(&room)).unwrap();
+                let _ = tx.send((format!("mutate {{ Pet{{ room_id:$r name:\"op{}-t{}\" }} }}", i, j), Some(p))).await;
+            }
+            let mut ok = 0;
+            let mut err = None;
+            for _ in 0..*rows {
+                match rx.recv().await {
+                    Some(Ok(_)) => ok += 1,
+                    Some(Err(e)) => err = Some(e.to_string()),
+                    None => err = Some("stream closed".to_string()),
+                }
+            }
+            drop(tx);
+            match err {
+                None => Ok(json!({"acknowledged": ok})),
+                Some(e) => Err(e),
+            }
+        }
     }
 }
 
@@ -402,6 +460,14 @@ fn observe(op: &OpSpec, st: &Status, s: &Snapshot, tags: &HashMap<String, Uid>, 
             o.push(("user in the room loaded at restart".to_string(), room_users.contains(&key)));
         }
         Kind::Recompute => {}
+        Kind::Stream { rows } => {
+            for j in 0..*rows {
+                o.push((format!("rows: op{}-t{}", i, j), tags.contains_key(&format!("op{}-t{}", i, j))));
+            }
+        }
+        Kind::WriteThenRecompute => {
+            o.push(("row".to_string(), tags.contains_key(&format!("op{}-0", i))));
+        }
     }
     o
 }
@@ -565,7 +631,9 @@ fn run_case<'a>(ctx: &'a Ctx, case: u64, acc: &'a mut Acc) -> CaseFut<'a> {
             }
             let obs = observe(op, stt, &s, &tags, &room_users, seed);
             // a synchronised batch is two write requests: rows, references
-            let parts: Vec<Vec<&(String, bool)>> = if matches!(op.kind, Kind::Sync { .. }) {
+            let parts: Vec<Vec<&(String, bool)>> = if matches!(op.kind, Kind::Stream { .. }) {
+                obs.iter().map(|o| vec![o]).collect()
+            } else if matches!(op.kind, Kind::Sync { .. }) {
                 vec![obs.iter().filter(|o| o.0.starts_with("rows")).collect(), obs.iter().filter(|o| o.0.starts_with("references")).collect()]
             } else {
                 vec![obs.iter().collect()]
@@ -586,7 +654,7 @@ fn run_case<'a>(ctx: &'a Ctx, case: u64, acc: &'a mut Acc) -> CaseFut<'a> {
                 // Delete observations need the target id, which a failed request does not report: covered by the
                 // target's own root observation
                 let partial = parts.iter().any(|p| !p.is_empty() && !p.iter().all(|o| o.1) && !p.iter().all(|o| !o.1));
-                let applied = !obs.is_empty() && all && !matches!(op.kind, Kind::Sync { .. });
+                let applied = !obs.is_empty() && all && !matches!(op.kind, Kind::Sync { .. } | Kind::Stream { .. });
                 if partial || applied {
                     any_violation = true;
                     acc.violation(format!("C13/request-reported-failed-has-{}-effect/{}/{}-{}", if applied { "its whole" } else { "a partial" }, op.kind.name(), fp, action), detail);
